@@ -301,12 +301,12 @@ def _check(run, only_case, facts0, voc, fixed_names, quick, procs, parent):
     listed = [k for k in common.load_known_findings() if k.get('property') == 'C11' and k.get('status', 'open') == 'open']
     groups = []
     gid = 10 ** 6
+    for k in listed:        # witnesses of the listed findings run in every mode: they decide which classes are honoured
+        groups.append({'id': gid, 'cases': [dict(k['witness'], role='witness', word=k['id'])], 'role': 'witness', 'kind': 'witness', 'finding': k})
+        gid += 1
     if only_case is not None:
         groups.append({'id': gid, 'cases': [only_case], 'role': 'replay', 'kind': 'replay'})
     else:
-        for k in listed:
-            groups.append({'id': gid, 'cases': [dict(k['witness'], role='witness', word=k['id'])], 'role': 'witness', 'kind': 'witness', 'finding': k})
-            gid += 1
         for c in corpus:
             groups.append({'id': gid, 'cases': [dict(c['case'], role='corpus', word=c['file'])], 'role': 'corpus', 'kind': 'corpus', 'corpus': c})
             gid += 1
@@ -361,9 +361,15 @@ def _check(run, only_case, facts0, voc, fixed_names, quick, procs, parent):
         pairs = None
         if answers is not None:
             real_names = [s[2] for s in r['symbols']]
-            want = sexp([real_names, real_names])
-            if answers[2 * k] != want:
-                dis_replay.append({'case': case, 'implementation': real_names, 'model': answers[2 * k][:600]})
+            try:
+                m_names, m_final = parse_sexp(answers[2 * k])
+            except Exception:
+                m_names, m_final = None, None
+            # names in call order, and the final generated_names set of the (single) namer of the conversion
+            if m_names != real_names or (r.get('generated_final') is not None and sorted(m_final) != r['generated_final']) \
+                    or (r['symbols'] and r.get('namers') != 1):
+                dis_replay.append({'case': case, 'implementation': [real_names, r.get('generated_final'), r.get('namers')],
+                                   'model': answers[2 * k][:600]})
             try:
                 flags, conv_names, tr_names, pairs = parse_classify(answers[2 * k + 1])
             except Exception:
@@ -503,13 +509,16 @@ def _check(run, only_case, facts0, voc, fixed_names, quick, procs, parent):
             if fails:
                 rs['failing'] += 1
             for f in fails[:1]:
-                fail(f[0], dict(case, detail=f[2]), f[1])
+                fail(f[0], dict(case, detail=f[2], all_failures=[x[0] for x in fails]), f[1])
             if len(run.samples) < 5 and (fails or nontriv) and len(run.samples) < (2 if not fails else 5):
                 run.sample({'role': role, 'word': case['word'], 'function': case['source'][case['source'].find('def ' + case['fname']):][:700],
                             'new_symbol': [[s[0], s[2]] for s in r['symbols']][:12], 'failure': fails[0][0] if fails else None,
                             'class': fails[0][1] if fails else None})
+    pairs_total = sum(len(rs['words']) for rs in stats['roles'].values())
     for rs in stats['roles'].values():
         rs['words'] = len(rs['words'])
+    run.cov['role_word_pairs_covered'] = pairs_total
+    run.cov['exhaustive'] = False       # every (role, word) pair is used at least once per sweep; programs and positions are sampled
     run.cov.update({'roles': stats['roles'], 'failing_by_class': stats['classes'], 'control_failed_groups': stats['control_failed_groups'],
                     'variants_not_loadable': stats['variants_not_loadable'], 'base_differential_mismatch_C01': stats['base_differential_mismatch'],
                     'call_sites_hit': stats['site_hits'], 'probe_cases': stats['probe_cases'], 'converted': stats['converted'],
@@ -558,6 +567,6 @@ def replay(run, path):
     with open(path) as f:
         rep = json.load(f)
     case = rep.get('case', rep)
-    case = {k: v for k, v in case.items() if k not in ('detail', 'corpus')}
+    case = {k: v for k, v in case.items() if k not in ('detail', 'corpus', 'all_failures')}
     check(run, only_case=case)
     return run.finish()
